@@ -39,3 +39,7 @@ MANIFEST = {
     "note": "Trusted: Lean kernel + 3 standard axioms; harness/driver/check.py glue; tree-sitter and rule matching are inputs of the model. Known findings (not repaired): `ast-grep-ignore:` with an empty list suppresses nothing; id lists inside block comments pick up the closing delimiter; Lua comments and Rust doc comments contain a nested comment-kind node that is treated as a second suppression.",
     "technique": "Lean 4 proof over hand-written executable model (as-is and post-fix variants) + declarative specification + differential correspondence (in-process API, hook, real CLI) + layout-level oracle with minimisation",
 }
+
+
+# round 11: the unit `lsp_requests` also runs under this property
+ENTRY["units"] += ["lsp_requests"]
